@@ -46,6 +46,9 @@ const c14Bound = 6 * time.Second
 
 var c14States = []string{"fresh", "proposed", "executing", "executing-live", "complete"}
 
+// complete-live is the second phase of the executing-live child: the reshare has finished, the node keeps running
+var c14AllStates = []string{"fresh", "proposed", "executing", "executing-live", "complete", "complete-live"}
+
 // ---------------------------------------------------------------- request kinds
 
 type c14Kind struct {
@@ -554,27 +557,38 @@ type c14Case struct {
 func c14GenCases(state string, seed uint64, thorough bool) []c14Case {
 	kinds := c14Kinds()
 	si := 0
-	for i, s := range c14States {
+	for i, s := range c14AllStates {
 		if s == state {
 			si = i
 		}
 	}
 	rng := vfNewRng(vfCaseSeed(seed, "C14/"+state, 0))
-	live := state == "executing-live" || state == "executing"
 	var singles, wedgy, pool []string
 	for _, k := range kinds {
-		if k.Live && !live {
-			continue
+		switch {
+		case state == "complete-live":
+			// the board of the finished DKG is still registered: insider-signed bundles and the Dkg gossip variant
+			if k.Live {
+				singles = append(singles, k.Name)
+				pool = append(pool, k.Name)
+			} else if k.Wedgy {
+				wedgy = append(wedgy, k.Name)
+			}
+		case k.Live:
+			// insider bundles only where the application channels are (no longer) drained by a protocol run
+		case k.Wedgy:
+			if state != "executing-live" {
+				wedgy = append(wedgy, k.Name)
+			}
+		default:
+			singles = append(singles, k.Name)
+			pool = append(pool, k.Name)
 		}
-		if k.Wedgy {
-			wedgy = append(wedgy, k.Name)
-			continue
-		}
-		singles = append(singles, k.Name)
-		pool = append(pool, k.Name)
 	}
-	nW := len(wedgy)
-	if !thorough && nW > 2 {
+	if state == "complete-live" {
+		singles = append(singles, singles...) // each insider bundle twice (fresh random content each time)
+	}
+	if !thorough && len(wedgy) > 2 {
 		p := rng.Perm(len(wedgy))
 		wedgy = []string{wedgy[p[0]], wedgy[p[1]]}
 	}
@@ -588,7 +602,12 @@ func c14GenCases(state string, seed uint64, thorough bool) []c14Case {
 	nSeq := 40
 	if thorough {
 		nSeq = 400
-		pool = append(pool, wedgy...)
+		if state != "complete-live" {
+			pool = append(pool, wedgy...)
+		}
+	}
+	if state == "complete-live" {
+		nSeq /= 4
 	}
 	for i := 0; i < nSeq; i++ {
 		n := 2 + rng.Intn(4)
@@ -598,7 +617,7 @@ func c14GenCases(state string, seed uint64, thorough bool) []c14Case {
 		}
 		add(ks...)
 	}
-	// wedgy singles last: in the live state a wedge ends the scenario
+	// wedgy singles last: on a live victim a wedge ends the scenario
 	for _, k := range wedgy {
 		add(k)
 	}
@@ -815,7 +834,7 @@ func (c *c14Child) probes(cs *c14Case, pos int, baseline bool) (allOK bool, wedg
 			continue
 		}
 		changed := c.base[p.name] != ans
-		c.emit(map[string]any{"t": "probe", "case_index": cs.Idx, "pos": pos, "probe": p.name, "out": out, "answer_changed": changed, "answer": ans,
+		c.emit(map[string]any{"t": "probe", "state": c.state, "case_index": cs.Idx, "pos": pos, "probe": p.name, "out": out, "answer_changed": changed, "answer": ans,
 			"site": c09PanicSiteIf(r)})
 		if r.TimedOut {
 			allOK = false
@@ -964,32 +983,48 @@ func TestVF_C14Child(t *testing.T) {
 		c.emit(map[string]any{"t": "done", "state": state})
 		return
 	}
-	cases := c14GenCases(state, vfSeed(), vfThorough())
 	ran := 0
-	for i := range cases {
-		cs := &cases[i]
-		if isReplay && cs.Idx != replay {
-			continue
-		}
-		if cs.Idx < start {
-			continue
-		}
-		ran++
-		if wedged := c.runCase(cs); wedged {
-			if !c.isFork {
-				c.emit(map[string]any{"t": "info", "state": state, "msg": "live victim wedged: scenario ends here", "skipped_cases": len(cases) - i - 1})
-				break
+	runList := func(label string) (ended bool) {
+		c.state = label
+		cases := c14GenCases(label, vfSeed(), vfThorough())
+		for i := range cases {
+			cs := &cases[i]
+			if isReplay && cs.Idx != replay {
+				continue
 			}
-			// leak the wedged Process, continue on a new fork of the same state
-			if err := c.newVictim(); err != nil {
-				c.emit(map[string]any{"t": "inconclusive", "state": state, "why": "re-fork: " + err.Error()})
-				break
+			if cs.Idx < start {
+				continue
+			}
+			ran++
+			if wedged := c.runCase(cs); wedged {
+				if !c.isFork {
+					c.emit(map[string]any{"t": "info", "state": label, "msg": "live victim wedged: scenario ends here", "skipped_cases": len(cases) - i - 1})
+					return true
+				}
+				// leak the wedged Process, continue on a new fork of the same state
+				if err := c.newVictim(); err != nil {
+					c.emit(map[string]any{"t": "inconclusive", "state": label, "why": "re-fork: " + err.Error()})
+					return true
+				}
 			}
 		}
+		return false
 	}
+	ended := runList(state)
 	if state == "executing-live" {
 		err := w.waitComplete(2, []string{"A", "B", "C", "E", "G"}, 90*time.Second)
 		c.emit(map[string]any{"t": "live", "state": state, "dkg_completed": err == nil, "err": fmt.Sprint(err)})
+		if err == nil && !ended {
+			// the node keeps running after the reshare: new baseline, then the insider bundles and the Dkg gossip variant
+			c.state = "complete-live"
+			b := &c09Builder{w: w, rng: vfNewRng(7)}
+			c.probeP = b.honest(&c09Group{Epoch: 2, Type: "abort"})
+			if ok, _ := c.probes(nil, 0, true); ok {
+				runList("complete-live")
+			} else {
+				c.emit(map[string]any{"t": "inconclusive", "state": "complete-live", "why": "baseline probe did not return"})
+			}
+		}
 	}
 	c.emit(map[string]any{"t": "done", "state": state, "cases": ran, "requests": c.nReq})
 	// no w.close(): a wedged Process cannot be closed; the child exits anyway
@@ -1044,7 +1079,7 @@ func TestVF_C14(t *testing.T) {
 		t.Fatal(err)
 	}
 	for si, state := range c14States {
-		if isReplay && replay/100000 != si {
+		if isReplay && replay/100000 != si && !(state == "executing-live" && replay/100000 == 5) {
 			continue
 		}
 		start := 0
@@ -1126,6 +1161,10 @@ func c14Absorb(run *vfRun, state, path string) (done bool, lastCase int) {
 			continue
 		}
 		str := func(k string) string { s, _ := r[k].(string); return s }
+		state := state
+		if s := str("state"); s != "" {
+			state = s
+		}
 		ci := -1
 		if v, ok := r["case_index"].(float64); ok {
 			ci = int(v)
@@ -1199,6 +1238,10 @@ func c14Absorb(run *vfRun, state, path string) (done bool, lastCase int) {
 	}
 	for _, wd := range wedges {
 		str := func(k string) string { s, _ := wd[k].(string); return s }
+		state := state
+		if s := str("state"); s != "" {
+			state = s
+		}
 		ci := -1
 		if v, ok := wd["case_index"].(float64); ok {
 			ci = int(v)
